@@ -5,6 +5,7 @@ fsim.stubs.install(); nothing in this module draws random numbers.
 from __future__ import annotations
 
 import dataclasses  # noqa: F401  (used by generated source)
+import typing  # noqa: F401  (annotations of generated stubs)
 import functools  # noqa: F401
 
 from fiddle._src import tag_type
